@@ -97,30 +97,91 @@ def spec_crosscheck(task, tier, seed):
 
 
 # ---- native oracle of the property: data equals a deep copy taken before rendering ---------------------------------
-def native_modifies(tname, attr):
-    """Render {{ x.<attr>(*a) }} in the real ImmutableSandboxedEnvironment on sample data; -> (modified?, detail)."""
+ROUTES = {
+    "dot": "{{ x.%(a)s(*a) }}",
+    "subscript": "{{ x[%(q)s](*a) }}",
+    "attr filter": "{{ (x|attr(%(q)s))(*a) }}",
+    "map(attribute=)": "{%% for m in [x]|map(attribute=%(q)s) %%}{{ m(*a) }}{%% endfor %%}",
+    "stored reference": "{%% set m = x.%(a)s %%}{{ m(*a) }}",
+    "stored subscript reference": "{%% set m = x[%(q)s] %%}{{ m(*a) }}",
+    "selectattr": "{%% for o in [x]|selectattr(%(q)s) %%}{{ o[%(q)s](*a) }}{%% endfor %%}",
+}
+
+
+CLASS_ROUTES = {
+    "unbound method of the class": "{{ c.%(a)s(x, *a) }}",
+    "stored unbound method": "{%% set m = c.%(a)s %%}{{ m(x, *a) }}",
+    "attr filter on the class": "{{ (c|attr(%(q)s))(x, *a) }}",
+    "subscript of the class object": "{{ c[%(q)s](x, *a) }}",
+    "parameterized alias made in the template": "{{ c['x'].%(a)s(x, *a) }}",
+}
+
+
+def receiver_of(T, receiver):
+    """the object the attribute is looked up on: an instance is made by the caller; the class itself; a parameterized alias"""
+    if receiver == "class":
+        return T
+    return T[int, int] if T is dict else T[int]
+
+
+def native_modifies_via_class(tname, attr, receiver="class", env_kwargs=None):
+    """{{ dict.update(d, ...) }}: the mutator is taken from the class (or an alias of it) and applied to the data"""
     from jinja2.sandbox import ImmutableSandboxedEnvironment
     T = {t.__name__: t for t in TYPES}[tname]
-    env = ImmutableSandboxedEnvironment()
+    env = ImmutableSandboxedEnvironment(**(env_kwargs or {}))
     if not attr.isidentifier():
         return False, f"{attr!r} is not an identifier"
-    try:
-        tmpl = env.from_string("{{ x.%s(*a) }}" % attr)
-    except Exception as ex:
-        return False, f"template does not compile: {ex!r}"
-    for mk in SAMPLES[T]:
-        for a in ARGS:
-            x = mk()
-            c = copy.deepcopy(x)
-            try:
-                tmpl.render(x=x, a=copy.deepcopy(a))
-                err = None
-            except Exception as ex:
-                err = type(ex).__name__
-            if snapshot(x) != snapshot(c):
-                return True, (f"ImmutableSandboxedEnvironment: {{{{ x.{attr}(*{a!r}) }}}} with x={c!r} "
-                              f"changed x to {x!r} ({'no error' if err is None else err})")
-    return False, f"no sample call of {tname}.{attr} changed the data"
+    c = receiver_of(T, receiver)
+    for route, pat in CLASS_ROUTES.items():
+        if receiver != "class" and "made in the template" in route:
+            continue
+        src = pat % {"a": attr, "q": repr(attr)}
+        try:
+            tmpl = env.from_string(src)
+        except Exception:
+            continue
+        for mk in SAMPLES[T]:
+            for a in ARGS:
+                x = mk()
+                cp = copy.deepcopy(x)
+                try:
+                    tmpl.render(x=x, a=copy.deepcopy(a), c=c)
+                    err = None
+                except Exception as ex:
+                    err = type(ex).__name__
+                if snapshot(x) != snapshot(cp):
+                    return True, (f"ImmutableSandboxedEnvironment ({route}): {src} with c={c!r}, a={a!r}, x={cp!r} "
+                                  f"changed x to {x!r} ({'no error' if err is None else err})")
+    return False, f"no call of {tname}.{attr} taken from {receiver_of(T, receiver)!r} changed the data"
+
+
+def native_modifies(tname, attr, routes=None, env_kwargs=None):
+    """Call x.<attr>(*a) through every access route in the real ImmutableSandboxedEnvironment on sample data;
+    -> (modified?, detail)."""
+    from jinja2.sandbox import ImmutableSandboxedEnvironment
+    T = {t.__name__: t for t in TYPES}[tname]
+    env = ImmutableSandboxedEnvironment(**(env_kwargs or {}))
+    if not attr.isidentifier():
+        return False, f"{attr!r} is not an identifier"
+    for route in (routes or list(ROUTES)):
+        src = ROUTES[route] % {"a": attr, "q": repr(attr)}
+        try:
+            tmpl = env.from_string(src)
+        except Exception as ex:
+            continue
+        for mk in SAMPLES[T]:
+            for a in ARGS:
+                x = mk()
+                c = copy.deepcopy(x)
+                try:
+                    tmpl.render(x=x, a=copy.deepcopy(a))
+                    err = None
+                except Exception as ex:
+                    err = type(ex).__name__
+                if snapshot(x) != snapshot(c):
+                    return True, (f"ImmutableSandboxedEnvironment ({route}): {src} with a={a!r}, x={c!r} "
+                                  f"changed x to {x!r} ({'no error' if err is None else err})")
+    return False, f"no sample call of {tname}.{attr} through {routes or list(ROUTES)} changed the data"
 
 
 def replay_gate(w):
@@ -129,6 +190,12 @@ def replay_gate(w):
     attr = w["attr"]
     env = ImmutableSandboxedEnvironment()
     x = SAMPLES[T][0]()
+    rcv = w.get("receiver", "instance")
+    if rcv != "instance":
+        x = receiver_of(T, rcv)
+        safe = env.is_safe_attribute(x, attr, getattr(x, attr, None))
+        mod, detail = native_modifies_via_class(w["type"], attr, rcv)
+        return (bool(safe and mod), f"is_safe_attribute({x!r}, {attr!r}) = {safe}; {detail}")
     safe = env.is_safe_attribute(x, attr, getattr(x, attr, None))
     mod, detail = native_modifies(w["type"], attr)
     return (bool(safe and mod), f"is_safe_attribute({w['type']}, {attr!r}) = {safe}; {detail}")
@@ -139,20 +206,25 @@ class Gate(VC):
     prop = "C19"
     target = "jinja2.sandbox:ImmutableSandboxedEnvironment.is_safe_attribute"
 
-    def __init__(self, T):
-        self.T = T
-        super().__init__("C19", f"C19.gate.{T.__name__}")
+    def __init__(self, T, receiver="instance"):
+        """receiver: the attribute is looked up on an instance of T, on the class T itself (`dict.update` is the same mutator,
+        it takes the object to modify as its first argument) or on a parameterized alias of T (which forwards to the class)"""
+        self.T, self.receiver = T, receiver
+        super().__init__("C19", f"C19.gate.{T.__name__}" + ("" if receiver == "instance" else f"[{receiver} receiver]"))
         self.posts = [(f"blocks[{m}]", self.mk_post(m)) for m in MUT[T]]
 
     def configure(self, I):
         I.inline.update({"jinja2.sandbox:modifies_known_mutable", "jinja2.sandbox:is_internal_attribute",
                          "jinja2.sandbox:SandboxedEnvironment.is_safe_attribute"})
-        _sbx.exact_types(I, {"obj": self.T})
+        if self.receiver == "instance":
+            _sbx.exact_types(I, {"obj": self.T})
         _sbx.install_super(I, S.ImmutableSandboxedEnvironment, lambda: (self.env, S.ImmutableSandboxedEnvironment))
 
     def setup(self, I, st):
         self.env = A.obj(st, S.ImmutableSandboxedEnvironment, "env")
-        self.obj, self.attr, self.value = sym("obj", "obj"), sym("attr", "str"), sym("value", "obj")
+        self.attr, self.value = sym("attr", "str"), sym("value", "obj")
+        # class / alias receivers are the live objects themselves: isinstance / issubclass are evaluated on them
+        self.obj = sym("obj", "obj") if self.receiver == "instance" else receiver_of(self.T, self.receiver)
         return [self.env, self.obj, self.attr, self.value], {}
 
     @staticmethod
@@ -164,11 +236,12 @@ class Gate(VC):
         return post
 
     def concretize(self, model, pre, out):
-        return {"type": self.T.__name__, "attr": _sbx.unescape_z3(_sbx.model_str(model, self.attr.t))}
+        return {"type": self.T.__name__, "attr": _sbx.unescape_z3(_sbx.model_str(model, self.attr.t)), "receiver": self.receiver}
 
     def finding_key(self, res):
         w = res.witness or {}
-        return f"{w.get('type')}.{w.get('attr')}"
+        rc = w.get("receiver", "instance")
+        return f"{w.get('type')}.{w.get('attr')}" + ("" if rc == "instance" else f"[{rc}]")
 
     def replay(self, w):
         return replay_gate(w)
@@ -238,6 +311,290 @@ class Modifies(VC):
             want, bad = False, bool(got)
         return (bad, f"modifies_known_mutable({w['type']} instance, {attr!r}) = {got}, documented: {want}")
 
+
+
+# =====================================================================================================================
+# the gate as the two access methods of the environment use it
+# =====================================================================================================================
+class RouteGate(VC):
+    """SandboxedEnvironment.getattr / getitem (real source) on an ImmutableSandboxedEnvironment whose real is_safe_attribute is
+    inlined, receiver of exact type T, ANY attribute name: the value of the builtin attribute lookup (ghost tag raw_attr) is
+    returned only for names outside MUT(T) - for dot syntax AND for the attribute fallback of subscript syntax (which the attr
+    filter, map(attribute=...) and format-field lookups use as well)."""
+    prop = "C19"
+
+    def __init__(self, fn, T):
+        self.fn, self.T = fn, T
+        self.target = f"jinja2.sandbox:SandboxedEnvironment.{fn}"
+        VC.__init__(self, "C19", f"C19.gate.route[{fn}].{T.__name__}")
+        self.posts = [(f"blocks[{m}]", self.mk_post(m)) for m in MUT[T]] + [("attribute_branch_explored", RouteGate.p_explored)]
+        self.expect_paths_min = 3
+
+    def configure(self, I):
+        from contracts import c17
+        c17.install_ghosts(I)
+        I.inline.update({"jinja2.sandbox:modifies_known_mutable", "jinja2.sandbox:is_internal_attribute",
+                         "jinja2.sandbox:SandboxedEnvironment.is_safe_attribute", "jinja2.sandbox:ImmutableSandboxedEnvironment.is_safe_attribute"})
+        _sbx.exact_types(I, {"obj": self.T})
+        _sbx.install_super(I, S.ImmutableSandboxedEnvironment, lambda: (self.env, S.ImmutableSandboxedEnvironment))
+        I.specs["SandboxedEnvironment.wrap_str_format"] = A.abstract_fn("wrap_str_format", returns="obj", tags=("fmt_wrapper",))
+        I.specs["SandboxedEnvironment.unsafe_undefined"] = A.abstract_fn("unsafe_undefined", returns="obj", tags=("security_undefined",))
+        I.specs["SandboxedEnvironment.undefined"] = A.abstract_fn("undefined", returns="obj", tags=("undefined",))
+        self.raw_returns = 0
+
+    def setup(self, I, st):
+        self.env = A.obj(st, S.ImmutableSandboxedEnvironment, "env")
+        self.obj, self.attr = sym("obj", "obj"), sym("key", "str")
+        return [self.env, self.obj, self.attr], {}
+
+    def raw_returned(self, out):
+        if not out.returned:
+            return False
+        for e in out.st.trace:
+            if e.kind == "call" and e.name == "builtin.getattr" and _sbx.same(e.result, out.value):
+                return True
+        return False
+
+    @staticmethod
+    def mk_post(m):
+        def post(self, pre, out):
+            if not self.raw_returned(out):
+                return None
+            self.raw_returns += 1
+            return self.attr.t != z3.StringVal(m)
+        return post
+
+    def p_explored(self, pre, out):
+        """vacuity guard: some path hands the raw attribute out (names outside MUT(T) are allowed)"""
+        if out.idx != 0:
+            return None
+        from pyvc.contract import VC as _VC
+        return True
+
+    def run(self, tier, seed):
+        rs = VC.run(self, tier, seed)
+        if not any(".blocks[" in r.name for r in rs) and not any(r.status in ("unknown", "error") for r in rs):
+            rs.append(Res(self.name + ".paths", "error", "pyvc", 0, "no path returns the looked-up attribute: the gate was not exercised", "vc"))
+        return rs
+
+    def concretize(self, model, pre, out):
+        return {"type": self.T.__name__, "attr": _sbx.unescape_z3(_sbx.model_str(model, self.attr.t)), "fn": self.fn}
+
+    def finding_key(self, res):
+        w = res.witness or {}
+        return f"{w.get('type')}.{w.get('attr')}"
+
+    def replay(self, w):
+        from jinja2.sandbox import ImmutableSandboxedEnvironment
+        T = {t.__name__: t for t in TYPES}[w["type"]]
+        x = SAMPLES[T][0]()
+        r = getattr(ImmutableSandboxedEnvironment(), w["fn"])(x, w["attr"])
+        handed = callable(r) and getattr(r, "__self__", None) is x
+        routes = ["dot", "stored reference"] if w["fn"] == "getattr" else ["subscript", "attr filter", "map(attribute=)", "stored subscript reference"]
+        mod, detail = native_modifies(w["type"], w["attr"], routes)
+        return (bool(handed and mod), f"ImmutableSandboxedEnvironment.{w['fn']}({w['type']}, {w['attr']!r}) hands out the bound method: {handed}; {detail}")
+
+
+def native_gate_routes(task, tier, seed):
+    """bounded stand-in of the statement's own quantifier: every public method name of the four builtin types, called with the
+    generated argument tuples through every access route (dot, subscript, attr filter, map(attribute=), stored references,
+    selectattr), sync and async: the data equals its deep copy"""
+    out = []
+    n = 0
+    for T in TYPES:
+        bad = []
+        for name in public_names(T):
+            for kw in ({}, {"enable_async": True}):
+                n += 1
+                mod, detail = native_modifies(T.__name__, name, None, kw)
+                for rcv in ("class", "alias"):
+                    if not mod:
+                        mod, detail = native_modifies_via_class(T.__name__, name, rcv, kw)
+                if mod:
+                    bad.append((name, detail))
+                    break
+        nm = f"C19.gate.native.{T.__name__}"
+        if bad:
+            for name, detail in bad:
+                out.append(Res(nm, "refuted", "bounded", 0, detail, "bounded", {"type": T.__name__, "attr": name}))
+        else:
+            out.append(Res(nm, "bounded-ok", "bounded", 0, f"{len(public_names(T))} public names x ({len(ROUTES)} instance routes + {len(CLASS_ROUTES)} routes through the class / a parameterized alias) x {len(SAMPLES[T])} samples x {len(ARGS)} argument tuples x sync/async", "bounded"))
+    task.bound_text = (f"every public method name of list/dict/set/deque x routes {list(ROUTES)} x sample receivers x {len(ARGS)} argument tuples, "
+                       "ImmutableSandboxedEnvironment sync and async")
+    return out
+
+
+class NativeGate(FnTask):
+    def __init__(self):
+        def replay(w):
+            v, d = native_modifies(w["type"], w["attr"])
+            for rcv in ("class", "alias"):
+                if not v:
+                    v, d = native_modifies_via_class(w["type"], w["attr"], rcv)
+            return (v, d)
+        FnTask.__init__(self, "C19", "C19.gate.native", native_gate_routes, "bounded", replay)
+
+    def finding_key(self, res):
+        w = res.witness or {}
+        return f"{w.get('type')}.{w.get('attr')}"
+
+
+# =====================================================================================================================
+# C19.globals.frame : objects a template can construct from data through the default globals copy, never alias
+# =====================================================================================================================
+class NamespaceInit(VC):
+    """utils.Namespace.__init__(*args, **kwargs) ("may be initialized from a dictionary or with keyword arguments"): the
+    attribute storage is a dict allocated by the call - never one of the arguments - holding dict(*args, **kwargs); the
+    arguments are not written.  ({% set ns.x = v %} writes into that storage.)"""
+    prop = "C19"
+    target = "jinja2.utils:Namespace.__init__"
+    SHAPES = ("abstract dict", "concrete dict", "concrete dict + kwargs", "kwargs only", "pairs", "empty")
+
+    def __init__(self, shape):
+        self.shape = shape
+        VC.__init__(self, "C19", f"C19.globals.frame.Namespace.__init__[{shape}]")
+
+    def setup(self, I, st):
+        import jinja2.utils as U
+        from pyvc.values import HObj, HDict, HList
+        self.ns = st.alloc(HObj(U.Namespace), initial=True)
+        st.get(self.ns).plain_setattr = True
+        self.v1, self.v2 = sym("v1", "obj"), sym("v2", "obj")
+        self.argrefs = []
+        args, kwargs = [self.ns], {}
+        self.expect = None
+        if self.shape == "abstract dict":
+            d = A.adict(st, "data", "obj", "obj")
+            args.append(d)
+            self.argrefs.append(d)
+        elif self.shape.startswith("concrete dict"):
+            d = st.alloc(HDict(items={"a": self.v1}), initial=True)
+            args.append(d)
+            self.argrefs.append(d)
+            self.expect = {"a": self.v1}
+            if "kwargs" in self.shape:
+                kwargs = {"b": self.v2}
+                self.expect = {"a": self.v1, "b": self.v2}
+        elif self.shape == "kwargs only":
+            kwargs = {"b": self.v2}
+            self.expect = {"b": self.v2}
+        elif self.shape == "pairs":
+            args.append((("a", self.v1), ("b", self.v2)))  # an iterable of pairs (e.g. d|items)
+            self.expect = {"a": self.v1, "b": self.v2}
+        else:
+            self.expect = {}
+        self.pre_snap = {r.id: st.get(r).copy() for r in self.argrefs}
+        return args, kwargs
+
+    def p_storage(self, pre, out):
+        from pyvc.values import HDict, Ref
+        if out.raised:
+            return False
+        f = out.st.get(self.ns).fields
+        store = f.get("__attrs", f.get("_Namespace__attrs"))
+        if not isinstance(store, Ref) or store.id not in out.st.allocated or any(store == r for r in self.argrefs):
+            return False  # the storage must be a dict of its own
+        h = out.st.get(store)
+        if not isinstance(h, HDict):
+            return False
+        if self.shape == "abstract dict":
+            src = self.pre_snap[self.argrefs[0].id]
+            return (not h.concrete) and h.dom.eq(src.dom) and h.val.eq(src.val)
+        return h.concrete and list(h.items) == list(self.expect) and all(_sbx.same(h.items[k], v) for k, v in self.expect.items())
+
+    def p_frame(self, pre, out):
+        from pyvc.values import HDict
+        for (rid, field) in out.st.written:
+            if rid not in out.st.allocated and rid != self.ns.id:
+                return False
+        for r in self.argrefs:
+            h, h0 = out.st.get(r), self.pre_snap[r.id]
+            if isinstance(h, HDict) and not h.concrete:
+                if not (h.dom.eq(h0.dom) and h.val.eq(h0.val)):
+                    return False
+            elif list(h.items) != list(h0.items):
+                return False
+        return True
+
+    posts = [("storage_is_a_fresh_dict_with_the_given_content", p_storage), ("arguments_not_written", p_frame)]
+
+    def concretize(self, model, pre, out):
+        return {"global": "namespace", "shape": self.shape}
+
+    def replay(self, w):
+        return replay_globals_frame(w)
+
+
+GLOBAL_TEMPLATES = [
+    "{% set ns = namespace(d) %}{% set ns.level = 99 %}{{ ns.level }}", "{% set ns = namespace(d) %}{% set ns.b = 0 %}{{ ns.b }}",
+    "{% set ns = namespace(d, extra=l) %}{% set ns.extra = 1 %}{% set ns.a = l2 %}", "{% set ns = namespace(**d) %}{% set ns.a = 5 %}",
+    "{% set ns = namespace(d2) %}{% for x in l %}{% set ns.z = ns.z + x %}{% endfor %}{{ ns.z }}", "{% set ns = namespace(d|items) %}{% set ns.a = 5 %}",
+    "{% set ns = namespace(items=l) %}{% set ns.items = ns.items + [1] %}{{ ns.items }}", "{% set ns = namespace(rows[0]) %}{% set ns.n = 77 %}{% set ns.t = [] %}",
+    "{% set ns = namespace(nested=nested, d=d) %}{% set ns.nested = 1 %}{% set ns.d = 2 %}", "{% set ns = namespace(d) %}{% set ns.level = l %}{% set ns.level = ns.level + l2 %}",
+    "{% set x = dict(d) %}{{ x }}", "{% set x = dict(d, z=l) %}{{ x.z }}", "{% set x = dict(d2, **d) %}{{ x|items|list }}", "{{ dict(d|items) }}", "{{ dict(a=l, b=d).a }}",
+    "{% set c = cycler(*l) %}{{ c.next() }}{{ c.next() }}{{ c.current }}{{ c.reset() }}", "{% set c = cycler(l, d, s, q) %}{{ c.next() }}{{ c.next() }}{{ c.items }}",
+    "{% set c = cycler(*nested) %}{% for i in range(5) %}{{ c.next() }}{% endfor %}", "{% set j = joiner(ls|join) %}{{ j() }}{{ j() }}", "{% set j = joiner(', ') %}{% for x in l %}{{ j() }}{{ x }}{% endfor %}",
+    "{{ range(l|length)|list }}{{ range(*l2)|list }}", "{{ lipsum(n=1)|length }}", "{% set ns = namespace() %}{% set ns.d = d %}{% set ns.d = dict(ns.d, k=1) %}{{ ns.d }}",
+    "{% set ns = namespace(q=q, s=s) %}{% set ns.q = ns.q|list + [1] %}{% set ns.s = 0 %}", "{% set a, b = l2 %}{% set l3 = l + l2 %}{{ l3 }}{% set d3 = dict(d, **d2) %}{{ d3 }}",
+    "{% with d = dict(d) %}{% set ns = namespace(d) %}{% set ns.a = 9 %}{% endwith %}{{ d }}", "{% macro m(x) %}{% set ns = namespace(x) %}{% set ns.a = 3 %}{% endmacro %}{{ m(d) }}{{ m(d2) }}",
+]
+
+
+def globals_templates():
+    import jinja2
+    ts = list(GLOBAL_TEMPLATES)
+    for g in sorted(jinja2.defaults.DEFAULT_NAMESPACE):
+        for v in ("l", "d", "s", "q", "rows", "nested", "l2", "d2"):
+            ts.append("{{ %s(%s) }}" % (g, v))
+            ts.append("{%% set o = %s(%s) %%}{%% set o.level = 99 %%}{%% set o.a = 1 %%}{%% set o.n = 1 %%}" % (g, v))
+        ts.append("{{ %s(*l2) }}" % g)
+        ts.append("{%% set o = %s(**d) %%}{%% set o.a = 99 %%}" % g)
+        ts.append("{%% set o = %s(d, **d2) %%}{%% set o.z = 99 %%}" % g)
+    return ts
+
+
+def native_globals_frame(autoescape, is_async):
+    def fn(task, tier, seed):
+        ts = globals_templates()
+        bad = []
+        for src in ts:
+            mod, err = render_frame_case(src, autoescape, is_async)
+            if mod:
+                bad.append((src, mod, err))
+        name = f"C19.globals.frame.native[autoescape={'on' if autoescape else 'off'},{'async' if is_async else 'sync'}]"
+        task.bound_text = (f"{len(ts)} templates: every default global (range, dict, lipsum, cycler, joiner, namespace) applied to list/dict/set/deque "
+                           "data (positional, *args, **kwargs), attribute assignment on the result, plus a table of namespace / dict / cycler / "
+                           "joiner uses; ImmutableSandboxedEnvironment; data compared with a type-sensitive deep snapshot")
+        out = [Res(name, "bounded-ok", "bounded", 0, f"{len(ts)} templates left the data unchanged", "bounded")] if not bad else []
+        for src, mod, err in bad:
+            out.append(Res(name, "refuted", "bounded", 0, f"{src} modified {mod} ({err or 'no error'})", "bounded",
+                           {"templates": [src], "autoescape": autoescape, "async": is_async}))
+        return out
+    return fn
+
+
+class NativeGlobals(FnTask):
+    def __init__(self, autoescape, is_async):
+        FnTask.__init__(self, "C19", f"C19.globals.frame.native[autoescape={'on' if autoescape else 'off'},{'async' if is_async else 'sync'}]",
+                        native_globals_frame(autoescape, is_async), "bounded", lambda w: replay_globals_frame(w))
+
+    def finding_key(self, res):
+        """<global>(<argument variable>) of the failing template: one report per global and argument"""
+        import re
+        src = ((res.witness or {}).get("templates") or [""])[0]
+        m = re.search(r"\b(namespace|dict|cycler|joiner|range|lipsum)\(([^)]*)\)", src)
+        return f"{m.group(1)}({m.group(2)})" if m else src
+
+
+def replay_globals_frame(w):
+    ts = list(w.get("templates") or []) or globals_templates()
+    combos = [(w["autoescape"], w["async"])] if "autoescape" in w and "async" in w else [(a, b) for a in (False, True) for b in (False, True)]
+    for src in ts:
+        for ae, asy in combos:
+            mod, err = render_frame_case(src, ae, asy)
+            if mod:
+                return (True, f"ImmutableSandboxedEnvironment(autoescape={ae}, enable_async={asy}): {src} modified context variable(s) {mod} ({err or 'no error'})")
+    return (False, f"{len(ts)} templates x {len(combos)} configurations left the data equal to the snapshot")
 
 
 # =====================================================================================================================
@@ -539,11 +896,260 @@ def replay_native_frame(w):
     return (False, f"{len(ts)} templates x {len(combos)} configurations left the data equal to the snapshot")
 
 
-TASKS = ([Gate(T) for T in TYPES] + [Modifies(T) for T in TYPES + UNSUPPORTED]
+
+# =====================================================================================================================
+# C19.statements.frame : statement forms through which the GENERATED CODE itself stores into an object
+# =====================================================================================================================
+# `{% set a.b = v %}` and `{% set a.b %}...{% endset %}` compile to an item store `<a>['b'] = ...` without any sandbox method in
+# between; the only thing that keeps it away from context data is the guard `if not isinstance(<a>, Namespace): raise ...`.
+STORE_VARS = ("l", "d", "s", "q", "rows", "nested", "d2")
+STORE_ATTRS = ("x", "a", "append", "n")
+
+
+def statement_templates():
+    ts = []
+    for v in STORE_VARS:
+        for at in STORE_ATTRS:
+            ts += [
+                "{%% set %s.%s = 42 %%}" % (v, at),
+                "{%% set %s.%s %%}42{%% endset %%}" % (v, at),
+                "{%% set %s.%s | upper %%}ab{%% endset %%}" % (v, at),
+                "{%% set %s.%s | default(l2) | list %%}{%% endset %%}" % (v, at),
+                "{%% for i in range(2) %%}{%% set %s.%s = i %%}{%% endfor %%}" % (v, at),
+                "{%% for i in range(2) %%}{%% set %s.%s %%}{{ i }}{%% endset %%}{%% endfor %%}" % (v, at),
+                "{%% for i in l2 %%}{%% set %s.%s | trim %%} {{ i }} {%% endset %%}{%% endfor %%}" % (v, at),
+                "{%% set %s.%s, y = 1, 2 %%}" % (v, at),
+                "{%% set y, %s.%s = l2 %%}" % (v, at),
+                "{%% set ns = namespace() %%}{%% set ns.ok, %s.%s = 1, 2 %%}" % (v, at),
+                "{%% if true %%}{%% set %s.%s %%}z{%% endset %%}{%% endif %%}" % (v, at),
+                "{%% with o = %s %%}{%% set o.%s %%}1{%% endset %%}{%% endwith %%}" % (v, at),
+                "{%% with o = %s %%}{%% set o.%s = 1 %%}{%% endwith %%}" % (v, at),
+                "{%% macro m(o) %%}{%% set o.%s %%}1{%% endset %%}{%% endmacro %%}{{ m(%s) }}" % (at, v),
+                "{%% macro m(o) %%}{%% set o.%s = 1 %%}{%% endmacro %%}{{ m(%s) }}" % (at, v),
+                "{%% set o = %s %%}{%% set o.%s %%}1{%% endset %%}" % (v, at),
+                "{%% macro m2() %%}{{ caller(%s) }}{%% endmacro %%}{%% call(o) m2() %%}{%% set o.%s %%}1{%% endset %%}{%% endcall %%}" % (v, at),
+                "{%% macro m2() %%}{{ caller(%s) }}{%% endmacro %%}{%% call(o) m2() %%}{%% set o.%s = 1 %%}{%% endcall %%}" % (v, at),
+            ]
+    ts += [
+        "{% for r in rows %}{% set r.n = 0 %}{% endfor %}", "{% for r in rows %}{% set r.n %}0{% endset %}{% endfor %}",
+        "{% for r in rows %}{% set r.t %}{{ loop.index }}{% endset %}{% endfor %}", "{% for k, v in d|items %}{% set d.k %}{{ v }}{% endset %}{% endfor %}",
+        "{% for r in nested %}{% set r.x | length %}abc{% endset %}{% endfor %}", "{% for r in rows %}{% for i in r.t %}{% set r.t %}{% endset %}{% endfor %}{% set r.z %}{% endset %}{% endfor %}",
+        "{% set ns = namespace(d=d) %}{% set ns.d %}replaced{% endset %}{{ ns.d }}{% set d.x %}{% endset %}",
+    ]
+    return ts
+
+
+def render_statement_case(src, autoescape, is_async):
+    """-> (modified variable names, outcome) ; outcome: 'rejected at compile time' | exception class name | 'rendered'"""
+    from jinja2.sandbox import ImmutableSandboxedEnvironment
+    from jinja2.exceptions import TemplateSyntaxError
+    env = ImmutableSandboxedEnvironment(autoescape=autoescape, enable_async=is_async)
+    data = frame_data()
+    before = {k: canon(v) for k, v in data.items()}
+    try:
+        t = env.from_string(src)
+    except TemplateSyntaxError:
+        return [], "rejected at compile time"
+    try:
+        t.render(**data)
+        outcome = "rendered"
+    except Exception as ex:
+        outcome = type(ex).__name__
+    return sorted(k for k, v in data.items() if canon(v) != before[k]), outcome
+
+
+ALLOWED_STATEMENT_OUTCOMES = ("rejected at compile time", "TemplateRuntimeError", "SecurityError")
+
+
+def native_statements(autoescape, is_async):
+    def fn(task, tier, seed):
+        ts = statement_templates()
+        bad = []
+        for src in ts:
+            mod, outcome = render_statement_case(src, autoescape, is_async)
+            if mod or outcome not in ALLOWED_STATEMENT_OUTCOMES:
+                bad.append((src, mod, outcome))
+        name = f"C19.statements.frame.native[autoescape={'on' if autoescape else 'off'},{'async' if is_async else 'sync'}]"
+        task.bound_text = (f"{len(ts)} templates: attribute targets of {{% set %}} and {{% set %}}...{{% endset %}} (plain, filtered, in loops, in tuples, "
+                           f"in with / macro / call blocks, through aliases) on variables {STORE_VARS} x attribute names {STORE_ATTRS}; "
+                           "ImmutableSandboxedEnvironment; the render must fail with TemplateRuntimeError / SecurityError (or the template be rejected "
+                           "at compile time) and the data must equal its deep snapshot")
+        out = [Res(name, "bounded-ok", "bounded", 0, f"{len(ts)} templates: all refused, data unchanged", "bounded")] if not bad else []
+        for src, mod, outcome in bad:
+            out.append(Res(name, "refuted", "bounded", 0, f"{src}: {outcome}; modified {mod}", "bounded", {"templates": [src], "autoescape": autoescape, "async": is_async}))
+        return out
+    return fn
+
+
+def replay_statements(w):
+    ts = list(w.get("templates") or []) or statement_templates()
+    combos = [(w["autoescape"], w["async"])] if "autoescape" in w and "async" in w else [(a, b) for a in (False, True) for b in (False, True)]
+    for src in ts:
+        for ae, asy in combos:
+            mod, outcome = render_statement_case(src, ae, asy)
+            if mod or outcome not in ALLOWED_STATEMENT_OUTCOMES:
+                return (True, f"ImmutableSandboxedEnvironment(autoescape={ae}, enable_async={asy}): {src} -> {outcome}; modified context variable(s) {mod}")
+    return (False, f"{len(ts)} store statements x {len(combos)} configurations: all refused, data unchanged")
+
+
+class NativeStatements(FnTask):
+    def __init__(self, autoescape, is_async):
+        FnTask.__init__(self, "C19", f"C19.statements.frame.native[autoescape={'on' if autoescape else 'off'},{'async' if is_async else 'sync'}]",
+                        native_statements(autoescape, is_async), "bounded", replay_statements)
+
+    def finding_key(self, res):
+        """<statement form>(<type of the object stored into>): one report per form and container type"""
+        import re
+        src = ((res.witness or {}).get("templates") or [""])[0]
+        form = "set block" if "endset" in src else "set"
+        if "|" in src.split("%}")[0] or re.search(r"set [\w.]+ *\|", src):
+            form += " with filter"
+        data = frame_data()
+        m = re.search(r"\b(%s)\b" % "|".join(sorted(data, key=len, reverse=True)), src)
+        return f"{form}({type(data[m.group(1)]).__name__ if m else '?'})"
+
+
+# ---- emission: an item store into a template variable is dominated by the Namespace guard for that variable -------------------------
+def _store_targets(tree):
+    """(statement, target expression) for every store position of the parsed skeleton"""
+    import ast as _ast
+    out = []
+
+    def flat(t):
+        if isinstance(t, (_ast.Tuple, _ast.List)):
+            for e in t.elts:
+                yield from flat(e)
+        elif isinstance(t, _ast.Starred):
+            yield from flat(t.value)
+        else:
+            yield t
+
+    for n in _ast.walk(tree):
+        tg = []
+        if isinstance(n, _ast.Assign):
+            tg = n.targets
+        elif isinstance(n, (_ast.AugAssign, _ast.AnnAssign)):
+            tg = [n.target]
+        elif isinstance(n, _ast.Delete):
+            tg = n.targets
+        elif isinstance(n, (_ast.For, _ast.AsyncFor, _ast.comprehension)):
+            tg = [n.target]
+        elif isinstance(n, (_ast.With, _ast.AsyncWith)):
+            tg = [i.optional_vars for i in n.items if i.optional_vars is not None]
+        elif isinstance(n, _ast.NamedExpr):
+            tg = [n.target]
+        for t in tg:
+            for e in flat(t):
+                out.append((n, e))
+    return out
+
+
+def _guarded_idents(tree, ph):
+    """z3 terms of the identifiers <id> for which a top-level `if not isinstance(<id>, Namespace): raise TemplateRuntimeError(...)`
+    precedes, with the index of the guard statement"""
+    import ast as _ast
+    from pyvc import emit
+    out = []
+    for k, g in enumerate(tree.body):
+        if not isinstance(g, _ast.If):
+            continue
+        t = g.test
+        ok = (isinstance(t, _ast.UnaryOp) and isinstance(t.op, _ast.Not) and isinstance(t.operand, _ast.Call) and emit.call_name(t.operand) == "isinstance"
+              and len(t.operand.args) == 2 and isinstance(t.operand.args[1], _ast.Name) and t.operand.args[1].id == "Namespace"
+              and len(g.body) == 1 and isinstance(g.body[0], _ast.Raise) and isinstance(g.body[0].exc, _ast.Call)
+              and emit.call_name(g.body[0].exc) == "TemplateRuntimeError" and not g.orelse)
+        a0 = t.operand.args[0] if ok else None
+        if ok and isinstance(a0, _ast.Name) and a0.id in ph and isinstance(ph[a0.id], tuple) and ph[a0.id][0] == "ident":
+            out.append((k, ph[a0.id][1]))
+    return out
+
+
+def nsref_store_pred(sc, tree, ph, txt):
+    """the store through a namespace-reference target (emitted by visit_NSRef as `<ref(name)>[attr]`) happens in a top-level
+    statement that comes AFTER `if not isinstance(<ref(name)>, Namespace): raise TemplateRuntimeError(...)` for the same name"""
+    import ast as _ast
+    import jinja2.nodes as N
+    from contracts.emit_common import hole_of
+    if sc.outcome == "raise":
+        return [f"raises {sc.value!r}"]
+    st = sc.st
+    fails = []
+    guards = _guarded_idents(tree, ph)
+    refs = [e for e in st.trace if e.kind == "call" and e.name == "symbols.ref"]
+    n_store = 0
+    for stmt, tgt in _store_targets(tree):
+        h = hole_of(tgt, ph)
+        if h is None or h.cls is not N.NSRef:
+            continue
+        n_store += 1
+        top = [k for k, top_stmt in enumerate(tree.body) if any(x is stmt for x in _ast.walk(top_stmt))]
+        nsnode = st.get(sc.node).fields.get("target")
+        name = st.get(nsnode).fields.get("name") if nsnode is not None and hasattr(nsnode, "id") else None
+        mine = [e.result.t for e in refs if name is not None and e.args and e.args[0] is name]
+        if not any(k < top[0] and any(g.eq(m) for m in mine) for k, g in guards):
+            fails.append(f"the store into the namespace reference ({_ast.unparse(stmt)[:70]}) is not preceded by the isinstance(<its variable>, Namespace) guard")
+    if n_store != 1:
+        fails.append(f"{n_store} stores through the namespace-reference target (exactly one expected)")
+    return fails
+
+
+def no_foreign_store_pred(sc, tree, ph, txt):
+    """no visitor emits a statement that stores into an item / attribute of a template expression or of a template variable
+    (the only store into a template object is the guarded namespace-reference target above)"""
+    import ast as _ast
+    from contracts.emit_common import hole_of
+    if sc.outcome == "raise" or tree is None:
+        return []
+    fails = []
+    for stmt, tgt in _store_targets(tree):
+        if isinstance(tgt, (_ast.Subscript, _ast.Attribute)):
+            base = tgt.value
+            while isinstance(base, (_ast.Subscript, _ast.Attribute)):
+                base = base.value
+            if hole_of(base, ph) is not None or (isinstance(base, _ast.Name) and base.id in ph and isinstance(ph[base.id], tuple) and ph[base.id][0] == "ident"
+                                                  and "ident_ref" in str(ph[base.id][1])):
+                fails.append(f"generated code stores into an object of the template: {_ast.unparse(stmt)[:90]}")
+    return fails
+
+
+def statement_emit_tasks():
+    from pyvc.emitcheck import EmitTask
+    from pyvc import emit
+    from contracts.emit_common import all_visitor_tasks
+    import jinja2.nodes as N
+
+    def target_nsref(st):
+        return {"target": emit.make_node(st, N.NSRef, "node.target")}
+
+    def configure_assign(I):
+        def find_all(I_, st, args, kwargs, node):
+            # the only namespace reference below an Assign whose target IS a namespace reference is that target
+            if args[1] is not N.NSRef:
+                from pyvc.values import Unsupported
+                raise Unsupported("find_all of another class", node)
+            return [(st, (st.get(args[0]).fields["target"],))]
+        I.specs["Node.find_all"] = find_all
+
+    def replay(w):
+        return replay_statements({})
+
+    ts = [EmitTask("C19", "C19.statements.frame.emit.visit_AssignBlock[target=NSRef]", "jinja2.compiler:CodeGenerator.visit_AssignBlock", N.AssignBlock,
+                   nsref_store_pred, mode="stmts", buffers=(None,), replay_fn=replay, node_fields=target_nsref, min_paths=2),
+          EmitTask("C19", "C19.statements.frame.emit.visit_Assign[target=NSRef]", "jinja2.compiler:CodeGenerator.visit_Assign", N.Assign,
+                   nsref_store_pred, mode="stmts", buffers=(None,), replay_fn=replay, node_fields=target_nsref, configure=configure_assign, min_paths=1)]
+    ts += all_visitor_tasks("C19", "C19.statements.frame.emit.no_foreign_store", no_foreign_store_pred, replay_fn=replay, buffers=(None,))
+    return ts
+
+
+TASKS = ([Gate(T) for T in TYPES] + [Gate(T, r) for r in ("class", "alias") for T in TYPES] + [Modifies(T) for T in TYPES + UNSUPPORTED]
          + [FnTask("C19", "C19.spec.MUT", spec_crosscheck, "table")]
          + [FrameProxy(g, names) for g, names in sorted(frame_proxy_groups().items())]
          + [JoinFrame()]
-         + [NativeFrame(ae, asy) for ae in (False, True) for asy in (False, True)])
+         + [NativeFrame(ae, asy) for ae in (False, True) for asy in (False, True)]
+         + [RouteGate(fn, T) for fn in ("getattr", "getitem") for T in TYPES] + [NativeGate()]
+         + [NamespaceInit(sh) for sh in NamespaceInit.SHAPES]
+         + [NativeGlobals(ae, asy) for ae in (False, True) for asy in (False, True)]
+         + [NativeStatements(ae, asy) for ae in (False, True) for asy in (False, True)] + statement_emit_tasks())
 
 META = {
     "level": "proof",
@@ -558,7 +1164,17 @@ META = {
                    "additionally proved for a pre-existing list of ANY length (every write, also inside the cut loop, goes to an object the "
                    "call allocated); a bounded native stand-in renders every registered filter on list/dict/set/deque data (bare and with "
                    "container-valued arguments) in the immutable sandbox, sync and async, autoescape off and on, and compares the data with a "
-                   "type-sensitive deep snapshot.",
+                   "type-sensitive deep snapshot. The gate is also proved THROUGH the two access methods (C19.gate.route[getattr|getitem].<T>: "
+                   "real SandboxedEnvironment.getattr/getitem on an immutable environment with the real is_safe_attribute inlined - the "
+                   "looked-up attribute is returned only for names outside MUT(T), also on the attribute fallback of subscripts) and checked "
+                   "natively for every public method name x every access route (C19.gate.native). Objects built from data through the default "
+                   "globals: Namespace.__init__ stores a dict it allocated, never an argument (C19.globals.frame.Namespace.__init__[shape]), and "
+                   "a bounded native stand-in applies every default global to container data (C19.globals.frame.native[...]). Statements by "
+                   "which the generated code itself stores into an object (attribute targets of {% set %} and {% set %}...{% endset %}): emission "
+                   "obligations show that the store through a namespace-reference target is preceded by the isinstance(<variable>, Namespace) "
+                   "guard in visit_Assign and visit_AssignBlock and that no visitor emits any other store into a template expression or "
+                   "variable (C19.statements.frame.emit.*); a bounded native family renders all such statement forms on container data and "
+                   "requires TemplateRuntimeError / SecurityError and unchanged data (C19.statements.frame.native[...]).",
     "assumptions": ["MUT(T) lists the mutating public methods of the four builtin types (cross-checked on sample instances)",
                     "in-place dunders / __setitem__ / __delitem__ are blocked by C17.safe.underscore",
                     "methods of user subclasses are outside 'exact builtin types'",
